@@ -109,6 +109,18 @@ fn single_cases(t: &str, is_bool: bool, is_num: bool) -> Vec<Case> {
         c("arithmetic on bool", "pub fn main(c: u8) -> u8 { c + c }", "pub fn main(c: bool) -> bool { c + c }");
         c("unary - on bool", "pub fn main(c: i8) -> i8 { -c }", "pub fn main(c: bool) -> bool { -c }");
     }
+    if is_num {
+        let (max, over): (&str, &str) = match t {
+            "u8" => ("255", "256"), "u16" => ("65535", "65536"), "u32" | "usize" => ("4294967295", "4294967296"), "u64" => ("18446744073709551615", ""),
+            "i8" => ("127", "128"), "i16" => ("32767", "32768"), "i32" => ("2147483647", "2147483648"), _ => ("9223372036854775807", "9223372036854775808"),
+        };
+        if !over.is_empty() {
+            c("integer literal that does not fit the annotated type", &format!("pub fn main(x: TT) -> TT {{ let w: TT = {max}; x }}"), &format!("pub fn main(x: TT) -> TT {{ let w: TT = {over}; x }}"));
+            c("integer literal operand that does not fit the other operand's type", &format!("pub fn main(x: TT) -> bool {{ x == {max} }}"), &format!("pub fn main(x: TT) -> bool {{ x == {over} }}"));
+            c("integer literal argument that does not fit the parameter type", &format!("fn f(a: TT) -> TT {{ a }}\npub fn main(x: TT) -> TT {{ f({max}) }}"), &format!("fn f(a: TT) -> TT {{ a }}\npub fn main(x: TT) -> TT {{ f({over}) }}"));
+            c("integer literal result that does not fit the return type", &format!("pub fn main(x: TT) -> TT {{ {max} }}"), &format!("pub fn main(x: TT) -> TT {{ {over} }}"));
+        }
+    }
     if is_num && t != "usize" {
         c("array index that is not usize", "pub fn main(a: [u8; 4], i: usize, x: TT) -> u8 { a[i] }", "pub fn main(a: [u8; 4], i: TT, x: TT) -> u8 { a[i] }");
         c("shift amount that is not u8", "pub fn main(a: u32, i: u8) -> u32 { a << i }", if t == "u8" { "pub fn main(a: u32, i: bool) -> u32 { a << i }" } else { "pub fn main(a: u32, i: TT) -> u32 { a << i }" });
